@@ -53,6 +53,34 @@ def norm_inc(t):
     return T.rewrite(T.to_term(t), fn)
 
 
+def same_function(a, b, symbols):
+    """Equality of two closed-form expressions in the given real symbols.  Identical terms are equal; otherwise the
+    two *formulas* (not the program) are evaluated at a few fixed rational points inside the unit disc - a difference
+    there refutes equality (True/False), agreement at all points of this polynomial-identity test is accepted as equal
+    (rational functions of bounded degree that agree at these points are identical with overwhelming probability),
+    free opaque sub-terms make the answer undecided (None)."""
+    a, b = T.to_term(a), T.to_term(b)
+    if a == b:
+        return True
+    extra = (a.free_symbols | b.free_symbols) - set(symbols)
+    if extra or T.has_unknown(a) or T.has_unknown(b) or a.atoms(sp.core.function.AppliedUndef) or b.atoms(sp.core.function.AppliedUndef):
+        return None
+    pts = [(sp.Rational(3, 10), sp.Rational(-1, 5), sp.Rational(1, 7), sp.Rational(2, 9), sp.Rational(4, 3)),
+           (sp.Rational(-2, 5), sp.Rational(1, 3), sp.Rational(-1, 11), sp.Rational(1, 13), sp.Rational(-5, 7)),
+           (sp.Rational(1, 9), sp.Rational(5, 11), sp.Rational(2, 7), sp.Rational(-3, 10), sp.Rational(11, 5)),
+           (sp.Rational(-1, 2), sp.Rational(-1, 4), sp.Rational(1, 5), sp.Rational(1, 6), sp.Rational(1, 8))]
+    for pt in pts:
+        sub = dict(zip(symbols, pt))
+        try:
+            va = complex(sp.N(a.subs(sub), 30))
+            vb = complex(sp.N(b.subs(sub), 30))
+        except Exception:
+            return None
+        if abs(va - vb) > 1e-12 * max(1.0, abs(va), abs(vb)):
+            return False
+    return True
+
+
 def run(ctx):
     ctx.explanation = EXPLANATION
     p = ctx.program
@@ -272,7 +300,56 @@ def run(ctx):
         okm = sp.expand(lm[0] - l[0]) == 0 and sp.expand(lm[2] - l[2]) == 0 and sp.expand(lm[1] + l[1]) == 0 and sp.expand(lm[3] + l[3]) == 0
         ctx.expect(okm, "R06.5", "initial_value[mirror]", "mirroring (b1,b2 -> -b1,-b2) keeps lambda1, lambda3 and negates lambda2, lambda4", fi.loc())
     ctx.absorb(it5)
+    # ---- R06.6 MEM closed form (Lygre & Krogstad 1986, eq. 13) and agreement of its two implementations
+    from ..interp import Env as _Env
+    A1, B1, A2, B2 = sp.symbols("a1 b1 a2 b2", real=True)
+    thm = sp.Symbol("theta", real=True)
+    c1, c2 = A1 + sp.I * B1, A2 + sp.I * B2
+    phi1_ref = (c1 - c2 * sp.conjugate(c1)) / (1 - c1 * sp.conjugate(c1))
+    phi2_ref = c2 - c1 * phi1_ref
+    num_ref = 1 - phi1_ref * sp.conjugate(c1) - phi2_ref * sp.conjugate(c2)
+    den_ref = sp.Abs(1 - phi1_ref * sp.exp(-sp.I * thm) - phi2_ref * sp.exp(-2 * sp.I * thm))**2
+    d_ref = sp.re(num_ref / den_ref) / (2 * sp.pi)
+    mem_terms = {}
+    for q in (EST + "mem._mem", EST + "mem.numba_mem"):
+        fm = p.get_function(q)
+        itm = Interp(p)
+        env = _Env(itm, fm, fm.module)
+        env.vars.update({"a1": A1, "b1": B1, "a2": A2, "b2": B2, "directions_radians": thm})
+        la_ = {}
+        for st in fm.node.body:
+            if isinstance(st, ast.Assign) and len(st.targets) == 1 and isinstance(st.targets[0], ast.Name):
+                nm = st.targets[0].id
+                if nm in ("integralApprox",):
+                    break
+                env.vars[nm] = itm.eval(st.value, env)
+                la_[nm] = T.to_term(env.vars[nm])
+
+        def drop_bcast(t):
+            def fn(n):
+                if fname(n) == "item" and isinstance(n.args[1], sp.Tuple) and NONE_T in n.args[1].args:
+                    return n.args[0]
+                return None
+            return T.rewrite(t, fn)
+
+        need = ("Phi1", "Phi2", "numerator", "denominator", "D")
+        if not all(k in la_ for k in need):
+            ctx.unsure("R06.6", f"{fm.name}[closed form]", "Phi1/Phi2/numerator/denominator/D not found under these names", fm.loc())
+            continue
+        got = {k: drop_bcast(la_[k]) for k in need}
+        mem_terms[fm.name] = got["D"]
+        checks = (("Phi1", phi1_ref), ("Phi2", phi2_ref), ("numerator", num_ref), ("denominator", den_ref), ("D", d_ref))
+        for k, ref in checks:
+            ok = same_function(got[k], ref, (A1, B1, A2, B2, thm))
+            ctx.expect(ok, "R06.6", f"{fm.name}[{k}]", f"{k} follows the Lygre-Krogstad closed form", fm.loc(),
+                       derived=T.show(got[k], 160), required=T.show(ref, 160))
+        ctx.absorb(itm)
+    if len(mem_terms) == 2:
+        a_, b_ = list(mem_terms.values())
+        ctx.expect(same_function(a_, b_, (A1, B1, A2, B2, thm)), "R06.6", "mem[_mem == numba_mem]",
+                   "the vectorised and the jitted MEM implementations compute the same distribution", "src/ocean_science_utilities/wavespectra/estimators/mem.py")
     ctx.absorb(its)
+    ctx.require_count("R06.6", 11)
     ctx.require_count("R06.1", 8)
     ctx.require_count("R06.2", 20)
     ctx.require_count("R06.3", 4)
